@@ -128,10 +128,18 @@ def gen_case(rng):
                 op=rng.choice(["interp", "interp", "gridding"]))
 
 
+_LAYOUT = [None]     # when set, the data array is handed over in another memory layout (same values)
+
+
 def intdata(rng, shape, cplx):
     a = np.array([rng.randint(-4, 4) for _ in range(int(np.prod(shape)))], dtype=np.float64).reshape(shape)
     if cplx:
         a = a + 1j * np.array([rng.randint(-4, 4) for _ in range(int(np.prod(shape)))], dtype=np.float64).reshape(shape)
+    if _LAYOUT[0] is not None:
+        from vlib import layouts
+        vs = layouts.variants(a, _LAYOUT[0], k=1)
+        if vs:
+            return vs[0][1]
     return a
 
 
@@ -243,6 +251,52 @@ def run(ctx):
                                              {"kind": "oracle", "case": describe(c), "input": x.tolist().__repr__(),
                                               "observed": y.tolist().__repr__(), "expected": ref.tolist().__repr__()}))
         done.append(dict(expr=expr, case=c, cls=cls))
+    # the same cases with the data array in a non-C-contiguous memory layout (closed-form oracle only)
+    import random as _random
+    for k, c in enumerate(cases):
+        if k % 2:
+            continue
+        _LAYOUT[0] = _random.Random(k)
+        try:
+            x, y, ref, _ = run_case(sp, _random.Random(k + 1), c)
+        except Exception as e:
+            bad.setdefault("exception-layout:" + c["op"], ("%s raised %r on a non-contiguous input" % (c["op"], e), {"kind": "impl-exception", "case": describe(c)}))
+            continue
+        finally:
+            _LAYOUT[0] = None
+        ctx.count("layout:%s:%s" % (c["op"], "C" if x.flags["C_CONTIGUOUS"] else "non-contiguous"), key=json.dumps(describe(c), sort_keys=True) + "L",
+                  nontrivial=bool(np.any(y != 0)))
+        tol = 1e-9 if c["kernel"] == "spline" else 3e-6
+        if y.shape != ref.shape or not np.allclose(y, ref, rtol=tol, atol=tol * (1 + np.abs(ref).max())):
+            bad.setdefault("oracle-layout:" + c["op"], ("%s differs from the documented kernel sum when the data array is not C-contiguous (strides %s)" % (c["op"], list(x.strides)),
+                                                        {"kind": "oracle", "case": describe(c), "input": x.tolist().__repr__(), "input_strides": list(x.strides),
+                                                         "observed": y.tolist().__repr__(), "expected": ref.tolist().__repr__()}))
+    # call SEQUENCES over coordinate dtypes: the same configuration first with float32 (and integer) coordinates, then with
+    # float64 ones -- width / param are cast to the coordinate dtype inside the function, nothing of that may survive the call
+    import random as _random
+    for k, c in enumerate(cases):
+        if k % 4 != 1:
+            continue
+        frac = dict(c)
+        frac["width"] = [2.6, 1.7, 3.3][: len(c["grid"])] if not np.isscalar(c["width"]) else 2.6
+        frac["param"] = ([5.1, 2.3, 7.7][: len(c["grid"])] if not np.isscalar(c["param"]) else 5.1) if c["kernel"] == "kaiser_bessel" else c["param"]
+        try:
+            for dt in (np.float32, np.int64):
+                c32 = dict(frac, coord=frac["coord"].astype(dt))
+                run_case(sp, _random.Random(k), c32)                      # result not judged (single precision / truncated coordinates)
+            x, y, ref, _ = run_case(sp, _random.Random(k), frac)
+        except Exception as e:
+            bad.setdefault("exception-sequence:" + c["op"], ("%s raised %r in a float32 -> float64 coordinate sequence" % (c["op"], e),
+                                                            {"kind": "impl-exception", "case": describe(frac)}))
+            continue
+        ctx.count("sequence:%s:coord-dtypes" % c["op"], key=json.dumps(describe(frac), sort_keys=True) + "S", nontrivial=bool(np.any(y != 0)))
+        tol = 1e-9 if c["kernel"] == "spline" else 3e-6
+        if y.shape != ref.shape or not np.allclose(y, ref, rtol=tol, atol=tol * (1 + np.abs(ref).max())):
+            bad.setdefault("oracle-sequence:" + c["op"], ("%s with float64 coordinates differs from the documented kernel sum after calls with the same configuration "
+                                                          "and float32 / integer coordinates" % c["op"],
+                                                          {"kind": "oracle", "case": describe(frac), "input": x.tolist().__repr__(),
+                                                           "observed": y.tolist().__repr__(), "expected": ref.tolist().__repr__(),
+                                                           "sequence": "float32 coords, int64 coords, then float64 coords"}))
     failing, corr_ok = [], True
     try:
         if tr_err or not ctx.make(["run/RunC07.vo"]):
